@@ -16,7 +16,7 @@ func init() {
 	register(&Property{
 		ID:      "C07",
 		NeedSSA: true,
-		Decided: "Structural necessary conditions: (hashdomain) for every physical kind the write side (splitBlockEncoding.Encode<K>, through its static callees) and the read side (Value.hash case K, through bloom.XXH64) reach xxhash functions of the same element width, and the bit-packed BOOLEAN page bytes never flow unmodified into a per-byte hash; (strategies) in flushFilterPages the `filter already filled` early exit is evaluated only for columns without a dictionary, the dictionary strategy is not chosen for a chunk that fell back to PLAIN, every non-copied column passes through flushFilterPages before its filter is written, and writeDataPage feeds the filter exactly for non-dictionary pages of a pre-sized filter; bloom filters are sized after buffered rows were flushed on the packing path; (check) CheckSplitBlock over decompressed bytes is given the length of those bytes; (own) bytes handed to a retained FileBloomFilter are allocated per filter; (header) the header written and the predicates that accept it name the same algorithm, hash and compression variants.",
+		Decided: "Structural necessary conditions: (hashdomain) for every physical kind the write side (splitBlockEncoding.Encode<K>, through its static callees) and the read side (Value.hash case K, through bloom.XXH64) reach xxhash functions of the same element width, and the bit-packed BOOLEAN page bytes never flow unmodified into a per-byte hash; (strategies) in flushFilterPages the `filter already filled` early exit is evaluated only for columns without a dictionary, the dictionary strategy is not chosen for a chunk that fell back to PLAIN, every non-copied column passes through flushFilterPages before its filter is written, and writeDataPage feeds the filter exactly for non-dictionary pages of a pre-sized filter; bloom filters are sized after buffered rows were flushed on the packing path; (check) CheckSplitBlock over decompressed bytes is given the length of those bytes; (own) bytes handed to a retained FileBloomFilter are allocated per filter; (header) the header written and the predicates that accept it name the same algorithm, hash and compression variants. (strategies, cont.) in flushFilterPages no sizing of the filter (which zeroes it) is reachable after an insertion, following constant boolean flags.",
 		NotDecided: "the hash functions, block selection and masks themselves; the assembly kernels; filter sizing arithmetic; false-positive rates.",
 		Assumptions: []string{"xxhash defines MultiSum64Uint128 over 16-byte values equal to Sum64 over the same bytes (unit-tested upstream)"},
 		Run:         runC07,
